@@ -202,6 +202,7 @@ func (m *UDPMuxDefault) GetConn(ufrag string, addr net.Addr) (net.PacketConn, er
 		go func() {
 			<-muxedConn.CloseChannel()
 			m.RemoveConnByUfrag(ufrag)
+			m.removeConnAddresses(muxedConn)
 		}()
 
 		if isIPv6 {
@@ -247,6 +248,20 @@ func (m *UDPMuxDefault) RemoveConnByUfrag(ufrag string) {
 	for _, c := range removedConns {
 		addresses := c.getAddresses()
 		for _, addr := range addresses {
+			delete(m.addressMap, addr)
+		}
+	}
+}
+
+// removeConnAddresses drops the address bindings still owned by conn. RemoveConnByUfrag
+// misses them when conn had already been removed from the mux and wrote again before
+// it was closed.
+func (m *UDPMuxDefault) removeConnAddresses(conn *udpMuxedConn) {
+	m.addressMapMu.Lock()
+	defer m.addressMapMu.Unlock()
+
+	for _, addr := range conn.getAddresses() {
+		if m.addressMap[addr] == conn {
 			delete(m.addressMap, addr)
 		}
 	}
